@@ -673,6 +673,31 @@ func (e *Engine) apply(op Op) string {
 			return "commit-failed"
 		}
 		e.AppPages = append(e.AppPages, got...)
+		if op.Seed > 0 {
+			// ... and overwrites its pages (each overwrite takes an overwrite page out of the meta area) until the meta area
+			// is used up as well
+			buf := make([]byte, e.File.PageSize())
+			for i, id := range e.AppPages {
+				tx, err := e.File.BeginWith(txfile.TxOptions{WALLimit: 1 << 20})
+				if err != nil {
+					break
+				}
+				p, err := tx.Page(id)
+				if err == nil {
+					buf[0] = byte(i)
+					err = p.SetBytes(buf)
+				}
+				if err == nil {
+					err = tx.Commit()
+				}
+				tx.Close()
+				if err != nil {
+					e.Stats["appfill-overwrites"] += i
+					e.Log = append(e.Log, fmt.Sprintf("appfill: overwrite #%d stopped: %v", i, err))
+					break
+				}
+			}
+		}
 		return ""
 
 	case "apprelease":
